@@ -123,6 +123,24 @@ pub(crate) fn layout_decimal(digits: &str, point: i32) -> String {
     }
 }
 
+/// ECMAScript ToInt32: truncate toward zero, then wrap modulo 2^32 into
+/// [-2^31, 2^31).  NaN and the infinities give 0.  (A plain `as i32` cast
+/// saturates instead of wrapping.)
+pub fn to_int32(n: f64) -> i32 {
+    to_uint32(n) as i32
+}
+
+/// ECMAScript ToUint32: truncate toward zero, then wrap modulo 2^32.
+pub fn to_uint32(n: f64) -> u32 {
+    if !n.is_finite() {
+        return 0;
+    }
+    // The remainder of two doubles is exact, so no precision is lost here.
+    let m = math::trunc(n) % 4294967296.0;
+    let m = if m < 0.0 { m + 4294967296.0 } else { m };
+    m as u32
+}
+
 /// Convert a JavaScript string to a number according to ECMAScript ToNumber.
 ///
 /// The string is first trimmed of leading and trailing whitespace.
